@@ -117,19 +117,11 @@ Proof.
   cbn [div of_int Rar]. fold x. apply secs_to_duration_R. exact Hx.
 Qed.
 
-(** * Histories of ProgressBar calls *)
-Definition clock_step (o : eop) (now : N) : N :=
-  match o with Adv ns => wadd64 now ns | _ => now end.
-
+(** * Histories of ProgressBar calls
+    ([clock_step], [run_state], [no_wrap], [bar_evs], [bar_points], [BInv]: model/Estimator.v) *)
 Section RunGeneric.
   Variable A : arith.
-
-  (** the state and the clock after a history (first components of [bar_run]) *)
-  Fixpoint run_state (ops : list eop) (now : N) (b : bar (T A)) : bar (T A) * N :=
-    match ops with
-    | [] => (b, now)
-    | o :: r => run_state r (clock_step o now) (bar_step A o now b)
-    end.
+  Notation run_state := (run_state A).
 
   Lemma bar_run_state : forall ops now b, fst (bar_run A ops now b) = run_state ops now b.
   Proof.
@@ -163,37 +155,11 @@ Section RunGeneric.
   Qed.
 End RunGeneric.
 
-(** the clock does not wrap around u64 nanoseconds (584 years) during the history *)
-Fixpoint no_wrap (ops : list eop) (now : N) : Prop :=
-  match ops with
-  | [] => True
-  | o :: r => match o with Adv ns => (now + ns < U64)%N | _ => True end /\ no_wrap r (clock_step o now)
-  end.
-
 Lemma clock_step_ge : forall o r now, no_wrap (o :: r) now -> (now <= clock_step o now)%N.
 Proof.
   intros o r now [H _]. destruct o; cbn [clock_step]; try lia.
   unfold wadd64. rewrite N.mod_small by exact H. lia.
 Qed.
-
-(** ** the estimator events a call produces *)
-Definition bar_evs_step (o : eop) (now : N) (b : bar R) : list ev :=
-  match o with
-  | Adv _ | Query | Finish | Abandon => []
-  | SetPos p => if fst (lim_allow now (b_lim b)) then [ERec p now] else []
-  | Inc d => if fst (lim_allow now (b_lim b)) then [ERec (wadd64 (b_pos b) d) now] else []
-  | Dec d => if fst (lim_allow now (b_lim b)) then [ERec (wsub64 (b_pos b) d) now] else []
-  | UpdPos p => [ERec p now]
-  | Tick | SetLen _ | UnsetLen => [ERec (b_pos b) now]
-  | ResetEta | ResetElapsed => [ERst now (b_pos b)]
-  | ResetAll => [ERst now 0%N]
-  end.
-
-Fixpoint bar_evs (ops : list eop) (now : N) (b : bar R) : list ev :=
-  match ops with
-  | [] => []
-  | o :: r => bar_evs_step o now b ++ bar_evs r (clock_step o now) (bar_step Rar o now b)
-  end.
 
 Lemma est_run_app : forall a r e, est_run (a ++ r) e = est_run r (est_run a e).
 Proof. induction a as [|x a IH]; intros r e; [reflexivity|]. cbn [app est_run]. apply IH. Qed.
@@ -234,10 +200,6 @@ Proof.
 Qed.
 
 (** ** invariant of the bar under every call *)
-Definition BInv (now : N) (b : bar R) : Prop :=
-  wf (b_est b) /\ J_nonneg (b_est b) /\ (prev_time (b_est b) <= now)%N /\
-  (b_started b <= start_time (b_est b))%N.
-
 Lemma est_ev_inv : forall x (e : est R),
   wf e -> J_nonneg e -> (prev_time e <= ev_time x)%N ->
   wf (est_ev x e) /\ J_nonneg (est_ev x e) /\ (prev_time (est_ev x e) <= ev_time x)%N /\
@@ -489,9 +451,8 @@ Qed.
 (** * Steady progress stated on the samples: all positions lie on one line *)
 Section Line.
   Variables r c : R.
-  Definition on_line (p t : N) : Prop := IZR (Z.of_N p) = r * secs t + c.
-  Definition ev_pos (x : ev) : N := match x with ERec p _ => p | ERst _ p => p end.
-  Definition ev_on_line (x : ev) : Prop := on_line (ev_pos x) (ev_time x).
+  Notation on_line := (on_line r c).
+  Notation ev_on_line := (ev_on_line r c).
 
   Lemma seg_rate_on_line : forall (e : est R) new now,
     on_line (prev_steps e) (prev_time e) -> on_line new now ->
@@ -539,10 +500,7 @@ End Line.
 (** * FORGETTING *)
 Section ForgetGeneric.
   Variable A : arith.
-  (** two bars that differ at most in what their estimators have learned *)
-  Definition same_but_est (b1 b2 : bar (T A)) : Prop :=
-    b_pos b1 = b_pos b2 /\ b_len b1 = b_len b2 /\ b_done b1 = b_done b2 /\
-    b_started b1 = b_started b2 /\ b_lim b1 = b_lim b2.
+  Notation same_but_est := (same_but_est A).
 
   (** reset_eta / reset_elapsed / reset: the states coincide afterwards, hence so does every later
       observation of every continuation *)
@@ -583,9 +541,6 @@ End ForgetGeneric.
 
 (** after a restart at position [pos] the estimator behaves like a NEW estimator created at that
     instant whose positions are counted from [pos] *)
-Definition shift_ev (p : N) (x : ev) : ev :=
-  match x with ERec n t => ERec (n + p) t | ERst t q => ERst t (q + p) end.
-
 Lemma est_run_shift : forall p evs (e : est R),
   est_run (map (shift_ev p) evs) (est_shift p e) = est_shift p (est_run evs e).
 Proof.
@@ -706,4 +661,169 @@ Proof.
     split; [lia|].
     unfold steady_ops. cbn [run_state clock_step snd].
     change (wadd64 0 15000000000) with 15000000000%N. reflexivity.
+Qed.
+
+(** STEADY PROGRESS at every query instant (bar level): the stall discount *)
+Theorem bar_steady_every_instant : forall r len t0 ops now', no_wrap ops t0 ->
+  segs_ok (fun x => x = r) (bar_evs ops t0 (bar_new Rar len t0)) (est_new Rar t0) ->
+  let b := fst (run_state Rar ops t0 (bar_new Rar len t0)) in
+  let now := snd (run_state Rar ops t0 (bar_new Rar len t0)) in
+  b_done b = false -> (now <= now')%N -> (start_time (b_est b) < now')%N ->
+  let A := W (secs (prev_time (b_est b) - start_time (b_est b))) in
+  let w := W (secs (now' - prev_time (b_est b))) in
+  bar_per_sec Rar b now' = r * steady_discount A w /\
+  0 <= steady_discount A w <= 1 /\
+  (steady_discount A w = 1 <-> now' = prev_time (b_est b)).
+Proof.
+  intros r len t0 ops now' Hn Hsegs b now Hd Hle Hst.
+  destruct (bar_after len t0 ops Hn) as ((_ & _ & Ht & _) & He & Hh). fold b in Ht, He. fold now in Ht.
+  unfold bar_per_sec. rewrite Hd. change (T Rar) with R in *. rewrite He in *.
+  apply (steady_every_instant r _ t0 now' Hh Hsegs); [lia | exact Hst].
+Qed.
+
+(** ... with the hypothesis on what the USER sees: the position right after every call that can
+    reach the estimator, paired with the instant of the call, lies on one line *)
+Lemma bar_move_pos : forall p now (b : bar R), b_pos (bar_move Rar p now b) = p.
+Proof.
+  intros p now b. unfold bar_move. change (T Rar) with R.
+  destruct (lim_allow now (b_lim b)) as [ok l']. destruct ok; reflexivity.
+Qed.
+
+Lemma evs_step_point : forall o now (b : bar R) x, In x (bar_evs_step o now b) ->
+  reaches_est o = true /\ ev_pos x = b_pos (bar_step Rar o now b) /\ ev_time x = now.
+Proof.
+  intros o now b x Hin.
+  destruct o; cbn [bar_evs_step] in Hin; try contradiction; cbn [reaches_est bar_step];
+    rewrite ?bar_move_pos;
+    try (destruct (fst (lim_allow now (b_lim b))); [|contradiction]);
+    destruct Hin as [<- | []]; repeat split; reflexivity.
+Qed.
+
+Definition pt_on_line (r c : R) (pt : N * N) : Prop := on_line r c (fst pt) (snd pt).
+
+Lemma bar_points_evs : forall r c ops now (b : bar R),
+  Forall (pt_on_line r c) (bar_points ops now b) -> Forall (ev_on_line r c) (bar_evs ops now b).
+Proof.
+  intros r c ops. induction ops as [|o rest IH]; intros now b H; [constructor|].
+  cbn [bar_points bar_evs] in *. apply Forall_app in H. destruct H as [H1 H2].
+  apply Forall_app. split; [|now apply IH].
+  apply Forall_forall. intros x Hin.
+  destruct (evs_step_point o now b x Hin) as (Hr & Hp & Ht).
+  rewrite Hr in H1. apply Forall_inv in H1.
+  unfold ev_on_line. rewrite Hp, Ht. exact H1.
+Qed.
+
+Theorem bar_steady_line : forall r c len t0 ops now', no_wrap ops t0 ->
+  on_line r c 0 t0 ->
+  Forall (pt_on_line r c) (bar_points ops t0 (bar_new Rar len t0)) ->
+  let b := fst (run_state Rar ops t0 (bar_new Rar len t0)) in
+  let now := snd (run_state Rar ops t0 (bar_new Rar len t0)) in
+  b_done b = false -> (now <= now')%N -> (start_time (b_est b) < now')%N ->
+  let A := W (secs (prev_time (b_est b) - start_time (b_est b))) in
+  let w := W (secs (now' - prev_time (b_est b))) in
+  bar_per_sec Rar b now' = r * steady_discount A w /\
+  0 <= steady_discount A w <= 1 /\
+  (steady_discount A w = 1 <-> now' = prev_time (b_est b)).
+Proof.
+  intros r c len t0 ops now' Hn H0 Hpts.
+  apply bar_steady_every_instant; [exact Hn|].
+  apply (line_segs_ok r c); [exact H0 | now apply bar_points_evs].
+Qed.
+
+(** the literal reading (exact at every query instant after the last update) is REFUTED on a
+    history of public calls: create at 0; update(set_pos 15) at 15 s; query at 30 s: 21/121 *)
+Definition steady_wit_ops : list eop := [Adv 15000000000; UpdPos 15; Adv 15000000000].
+
+Theorem bar_steady_between_samples_refuted :
+  exists r c len t0 ops,
+    no_wrap ops t0 /\ on_line r c 0 t0 /\
+    Forall (pt_on_line r c) (bar_points ops t0 (bar_new Rar len t0)) /\
+    let b := fst (run_state Rar ops t0 (bar_new Rar len t0)) in
+    let now := snd (run_state Rar ops t0 (bar_new Rar len t0)) in
+    b_done b = false /\ (start_time (b_est b) < now)%N /\ bar_per_sec Rar b now < r.
+Proof.
+  exists 1, 0, (Some 100%N), 0%N, steady_wit_ops.
+  assert (Hn : no_wrap steady_wit_ops 0).
+  { unfold steady_wit_ops. cbn [no_wrap clock_step]. unfold wadd64, U64.
+    repeat split; try exact I; cbn; reflexivity. }
+  assert (H0 : on_line 1 0 0 0) by (unfold on_line, secs; cbn [Z.of_N]; lra).
+  assert (Hpts : Forall (pt_on_line 1 0) (bar_points steady_wit_ops 0 (bar_new Rar (Some 100%N) 0))).
+  { unfold steady_wit_ops. cbn [bar_points reaches_est clock_step app bar_step].
+    change (wadd64 0 15000000000) with 15000000000%N.
+    constructor; [|constructor]. unfold pt_on_line, on_line. cbn [fst snd bar_record b_pos].
+    rewrite secs_15. cbn [Z.of_N]. lra. }
+  split; [exact Hn|]. split; [exact H0|]. split; [exact Hpts|]. cbv zeta.
+  assert (Hev : bar_evs steady_wit_ops 0 (bar_new Rar (Some 100%N) 0) = [ERec 15 15000000000]).
+  { unfold steady_wit_ops. cbn [bar_evs bar_evs_step clock_step app].
+    change (wadd64 0 15000000000) with 15000000000%N. reflexivity. }
+  assert (Hclk : snd (run_state Rar steady_wit_ops 0 (bar_new Rar (Some 100%N) 0)) = 30000000000%N).
+  { unfold steady_wit_ops. cbn [run_state clock_step snd].
+    change (wadd64 0 15000000000) with 15000000000%N.
+    change (wadd64 15000000000 15000000000) with 30000000000%N. reflexivity. }
+  destruct (bar_after (Some 100%N) 0%N steady_wit_ops Hn) as (_ & He & _).
+  rewrite Hev, wit1_state in He.
+  assert (Hd : b_done (fst (run_state Rar steady_wit_ops 0 (bar_new Rar (Some 100%N) 0))) = false) by reflexivity.
+  split; [exact Hd|].
+  destruct (bar_steady_line 1 0 (Some 100%N) 0%N steady_wit_ops 30000000000%N Hn H0 Hpts Hd) as (Hv & _).
+  - rewrite Hclk. lia.
+  - change (T Rar) with R in *. rewrite He. cbn [start_time]. lia.
+  - rewrite Hclk. change (T Rar) with R in *. rewrite He in *. cbn [start_time prev_time] in *.
+    split; [lia|]. rewrite Hv.
+    change (15000000000 - 0)%N with 15000000000%N.
+    change (30000000000 - 15000000000)%N with 15000000000%N.
+    rewrite W_15_ns. unfold steady_discount. lra.
+Qed.
+
+(** NO PROGRESS SEEN <=> RATE ZERO (bar level): the third zero case of eta() *)
+Theorem bar_rate_zero_iff_no_progress : forall len t0 ops now', no_wrap ops t0 ->
+  let b := fst (run_state Rar ops t0 (bar_new Rar len t0)) in
+  let now := snd (run_state Rar ops t0 (bar_new Rar len t0)) in
+  b_done b = false -> (now <= now')%N -> (start_time (b_est b) < now')%N ->
+  (progress_seen (b_est b) -> 0 < bar_per_sec Rar b now') /\
+  (bar_per_sec Rar b now' = 0 <-> ~ progress_seen (b_est b)) /\
+  (~ progress_seen (b_est b) -> bar_eta Rar b now' = Some 0%N).
+Proof.
+  intros len t0 ops now' Hn b now Hd Hle Hst.
+  destruct (bar_after len t0 ops Hn) as ((_ & _ & Ht & _) & He & Hh). fold b in Ht, He. fold now in Ht.
+  assert (Hq : bar_per_sec Rar b now' = est_sps Rar (b_est b) now') by (unfold bar_per_sec; rewrite Hd; reflexivity).
+  rewrite Hq. change (T Rar) with R in *. rewrite He in *.
+  destruct (rate_zero_iff_no_progress _ t0 now' Hh) as (P1 & P2 & P3); [lia | exact Hst|].
+  split; [exact P1|]. split; [exact P3|].
+  intros Hno. apply eta_no_rate. apply is_zero_R_true. change (T Rar) with R. rewrite He. now apply P2.
+Qed.
+
+(** FINITE at the instant of a recorded backwards seek is REFUTED: the normaliser is 0 there
+    (the binary64 code computes 0 * 1 / 0 = NaN).  History without any reset: create at 0;
+    update(set_pos 10) at 1 s; update(set_pos 5) at 2 s; query at 2 s *)
+Definition rewind_wit_ops : list eop := [Adv 1000000000; UpdPos 10; Adv 1000000000; UpdPos 5].
+
+Theorem bar_rewind_instant_refuted :
+  exists len t0 ops,
+    no_wrap ops t0 /\ forallb (fun o => negb (is_reset_op o)) ops = true /\
+    let b := fst (run_state Rar ops t0 (bar_new Rar len t0)) in
+    let now := snd (run_state Rar ops t0 (bar_new Rar len t0)) in
+    b_done b = false /\ (t0 < now)%N /\ (b_started b < now)%N /\
+    1 - W (secs (now - start_time (b_est b))) = 0.
+Proof.
+  exists (Some 100%N), 0%N, rewind_wit_ops.
+  assert (Hn : no_wrap rewind_wit_ops 0).
+  { unfold rewind_wit_ops. cbn [no_wrap clock_step]. unfold wadd64, U64.
+    repeat split; try exact I; cbn; reflexivity. }
+  split; [exact Hn|]. split; [reflexivity|]. cbv zeta.
+  assert (Hclk : snd (run_state Rar rewind_wit_ops 0 (bar_new Rar (Some 100%N) 0)) = 2000000000%N).
+  { unfold rewind_wit_ops. cbn [run_state clock_step snd].
+    change (wadd64 0 1000000000) with 1000000000%N.
+    change (wadd64 1000000000 1000000000) with 2000000000%N. reflexivity. }
+  assert (Hev : bar_evs rewind_wit_ops 0 (bar_new Rar (Some 100%N) 0) =
+                [ERec 10 1000000000; ERec 5 2000000000]).
+  { unfold rewind_wit_ops. cbn [bar_evs bar_evs_step clock_step app].
+    change (wadd64 0 1000000000) with 1000000000%N.
+    change (wadd64 1000000000 1000000000) with 2000000000%N. reflexivity. }
+  destruct (bar_after (Some 100%N) 0%N rewind_wit_ops Hn) as (_ & He & _).
+  rewrite Hev in He. cbn [est_run est_ev] in He.
+  rewrite (est_record_accept 10 1000000000) in He by (cbn; lia).
+  rewrite est_record_rewind in He by (cbn; lia).
+  rewrite Hclk. change (T Rar) with R in *. rewrite He. cbn [start_time].
+  split; [reflexivity|]. split; [lia|]. split; [cbn; lia|].
+  rewrite N.sub_diag, secs_0, W_0. lra.
 Qed.
